@@ -381,7 +381,7 @@ pub fn diff_bytes(bytes: &[u8], obs: &mut Obs) -> Result<(), Fail> {
 // ------------------------------------------------------------------ coverage-guided lane (libFuzzer)
 
 fn fuzz_spec() -> crate::fuzzlane::FuzzSpec {
-    crate::fuzzlane::FuzzSpec { target: "ber_parse", oracle: diff_bytes, seeds: crate::fuzzlane::seeds_ber, max_len: 4096, runs_per_worker: 2000000 }
+    crate::fuzzlane::FuzzSpec { target: "ber_parse", oracle: diff_bytes, seeds: crate::fuzzlane::seeds_ber, max_len: 4096, runs_per_worker: 6000000 }
 }
 
 fn fuzz_run(ctx: &Ctx, known: &[crate::runner::KnownFinding]) -> crate::runner::LaneReport {
